@@ -16,6 +16,7 @@ BUDGET = {
     # kind: (quick, thorough)
     "fs": (1500, 30000),
     "fslive": (200, 3000),
+    "fsduring": (60, 600),       # kind "fslive" with rule files replaced while Start is in its initial load
     "http": (1200, 20000),
     "blob": (400, 4000),
     "k8s": (48, 400),
@@ -109,7 +110,8 @@ def first_diff(case, i, m):
     if not usable(i) or not usable(m):
         return None, None, i, m
     if "start" in m and vlib.canon(i.get("start")) != vlib.canon(m["start"]):
-        return "start", {"init": case.get("init"), "start": case.get("start")}, i.get("start"), m["start"]
+        return "start", dict({"init": case.get("init"), "start": case.get("start")},
+                             **({"during": case["during"]} if case.get("during") else {})), i.get("start"), m["start"]
     for k, (a, b) in enumerate(zip(i["steps"], m["steps"])):
         if vlib.canon(a) != vlib.canon(b):
             return k, case["steps"][k], a, b
@@ -158,6 +160,13 @@ def explain(case, i, m):
                         + (f"the processor was called with {json.dumps(deleted[0])} and " if deleted else "")
                         + f"the active rule set {json.dumps(lost[0] if lost else cut[1])} is lost")
     if isinstance(a, dict) and isinstance(b, dict):
+        twice = [x for x in (a.get("active") or []) if len(x[1]) > 1]
+        if twice and not [x for x in (b.get("active") or []) if len(x[1]) > 1]:
+            what.append(("rule files were replaced while Start was inside a processor call of its initial load "
+                         f"({json.dumps(case['during'])[:160]}): " if k == "start" and case.get("during") else "")
+                        + f"more than one rule set is active for one source ({json.dumps(twice)}): a version that is "
+                        "not the latest valid content stays loaded next to it (c18_fs_start_under_changes_no_duplicate, "
+                        "c18_repository_is_book)")
         shared = sorted({x[0] for x in (a.get("active") or []) + (a.get("book") or []) if "|" in str(x[0])} |
                         {x[1] for x in (a.get("calls") or []) if "|" in str(x[1])})
         if shared:
@@ -194,6 +203,10 @@ def shrink(exe, case):
             cur["init"] = []
     if len(cur["steps"]) > 1:
         cur["steps"] = vlib.ddmin(cur["steps"], lambda x: fails(dict(cur, steps=x)))
+        if len(cur["steps"]) == 1 and fails(dict(cur, steps=[])):
+            cur["steps"] = []
+    if len(cur.get("during") or []) > 1:
+        cur["during"] = vlib.ddmin(cur["during"], lambda x: fails(dict(cur, during=x)))
     # fewer blobs per poll / objects per list
     for idx, st in enumerate(list(cur["steps"])):
         for key in ("set", "objs"):
@@ -217,16 +230,38 @@ def spec_mismatch(i, m):
         return None
     if isinstance(i.get("start"), dict) and i["start"].get("err"):
         return None        # Start failed: heimdall does not come up
+    if isinstance(i.get("start"), dict) and "spec_start" in m:
+        # after Start (and, where files were replaced meanwhile, after everything notified has been handled): one rule
+        # set per source, the latest valid content the provider was shown - no second version next to it
+        if "spec_start_disk" in m:
+            # files were replaced during Start: per source the version the load was shown or, if the provider noticed
+            # the change, the latest valid content on disk - one of them, once
+            shown, disk, got = (dict((s, vs) for s, vs in x) for x in (m["spec_start"], m["spec_start_disk"],
+                                                                       i["start"].get("active") or []))
+            for s in sorted(set(shown) | set(disk) | set(got)):
+                if got.get(s) not in (shown.get(s), disk.get(s)):
+                    return "start", [[s, got.get(s, [])]], [[s, shown.get(s, [])], "or", [s, disk.get(s, [])]]
+            if got != shown:
+                return None     # it noticed changes the model does not show it: the oracle below does not apply
+        else:
+            for key in ("active", "served"):
+                want = m["spec_start"] if key == "active" else served_of(m["spec_start"])
+                if vlib.canon(i["start"].get(key)) != vlib.canon(want):
+                    return "start", i["start"].get(key), want
     for k, (a, want) in enumerate(zip(i["steps"], spec)):
         if vlib.canon(a.get("active")) != vlib.canon(want):
             return k, a.get("active"), want
         if "served" in a:
             # ... and they are what requests are really answered with (FindRule on the path of every content)
-            exp = sorted(([path_of(int(vs[0][1:])), s, vs[0]] for s, vs in want if len(vs) == 1), key=lambda x: x[0])
-            exp = [["/c%d" % p, s, v] for p, s, v in exp]
+            exp = served_of(want)
             if vlib.canon(a["served"]) != vlib.canon(exp):
                 return k, a["served"], exp
     return None
+
+
+def served_of(want):
+    exp = sorted(([path_of(int(vs[0][1:])), s, vs[0]] for s, vs in want if len(vs) == 1), key=lambda x: x[0])
+    return [["/c%d" % p, s, v] for p, s, v in exp]
 
 
 def path_of(v):
@@ -254,6 +289,12 @@ def tally(cases, model):
         by_kind[c["kind"]] = by_kind.get(c["kind"], 0) + 1
         if any(f["file"].get("link") for f in c.get("init", []) if "file" in f):
             outcomes["config:symlink present at start"] = outcomes.get("config:symlink present at start", 0) + 1
+        if c.get("during"):
+            outcomes["config:files replaced during the initial load"] = \
+                outcomes.get("config:files replaced during the initial load", 0) + 1
+            for d in c["during"]:
+                key = "during-start:" + d["file"]["st"] + (" (link)" if d["file"].get("link") else "")
+                outcomes[key] = outcomes.get(key, 0) + 1
         if len(c.get("buckets", [])) >= 2:
             outcomes["config:blob 2+ buckets"] = outcomes.get("config:blob 2+ buckets", 0) + 1
             pairs = [(b.get("name"), b.get("prefix", "")) for b in c["buckets"]]
@@ -402,7 +443,9 @@ def _run(R):
         "rule": "random histories of rule-set sources per provider: file_system (notifications with any op bits handed "
                 "to ruleSetsChanged over real files, and real file operations observed through fsnotify; directory "
                 "entries are regular files, sub directories or symbolic links to a file / a directory / nothing, "
-                "present at start, created, re-pointed and removed), "
+                "present at start, created, re-pointed and removed; rule files replaced, emptied, removed or added while "
+                "Start is held inside the first processor call of its initial load - the file being loaded, files "
+                "not yet opened, files opened already -, then a notification for the changed file), "
                 "http_endpoint (1-3 endpoints, also same path on two hosts or differing in the query only; httptest servers: valid yaml/json, empty, unparsable, unknown content type, 4xx/5xx, "
                 "closed connection, cancelled poll, and transport-level damage of an otherwise valid 200 answer: "
                 "Content-Length announced and the connection closed / reset after k bytes (k = 0, near the start, "
